@@ -244,3 +244,15 @@ SPECS["C10"] = {
     "not_covered": ["parse_path tokenisation lemma as a string VC"],
     "assumptions": [],
 }
+
+
+SPECS["C19"] = {
+    "level": "proof",
+    "level_text": "generic FIR filter (class FirFilter, extracted mechanically from fir.pyx on every run): proved for kernels of 1, 2, 3, 4, 8 and 19 taps, ANY carried state, ANY two non-empty blocks of any length and any sample values, over an abstract window function (so for any arithmetic incl. the ChickenSys custom convolution): process(a); process(b) emits exactly the outputs of process(a ++ b) and leaves the same history; one block plus flush emits as many samples as were fed, for every delay offset; the flush restores the constructor state (reset = new). More blocks follow by induction (paper). BOUNDED: the extracted source on real numpy for every composition of short signals. NOT DECIDED: the IIR kernels and the ChickenSys C-level convolution/saturation (Cython cdef code; no Cython or C verifier here, and the .so cannot be rebuilt) - the IIR half of the statement is undecided",
+    "level_note": "trusted: pyvc engine, z3; numpy concatenate/slicing/convolve('valid')/astype contracts (assumed); the repaired fir.pyx cannot be rebuilt in this sandbox (no Cython): the proofs and the bounded run execute the SOURCE, not the stale .so",
+    "contracts": [f"lemma:fir_block_split[N={n}]" for n in (1, 2, 3, 4, 8, 19)] + [f"lemma:fir_total_outputs[N={n}]" for n in (1, 2, 3, 4, 8, 19)],
+    "bounded": [("contracts.filters", "bounded:fir_source")],
+    "trusted_base": ["pyvc VC generator", "z3 5.1.0 / cvc5 1.0.3"],
+    "not_covered": ["iir.pyx kernels (_c_process, _c_chickensys_process)", "_c_chicken_sys_convolve_valid, _c_bound_and_fix (cdef)", "filter presets' coefficients"],
+    "assumptions": ["induction over the number of blocks from the two-block lemma (paper)"],
+}
